@@ -335,6 +335,12 @@ structure G03 where
   blind : Bool := false
 deriving Repr, Inhabited
 
+/-- The call re-installed number `n` and the artifact now in place is not `b`: the server re-issued
+    that number with other bytes (an install writes what was downloaded and verified; that this is
+    what is in place is C05). Something happened to that patch: the observer stops tracking it. -/
+def reissued (op : Op) (post : View) (n : Nat) (b : Bytes) : Bool :=
+  installedBy op post == some n && post.fileOf n != some b
+
 def G03.next (env : Env) (g : G03) (op : Op) (pre post : View) : G03 :=
   let cfg := trackCfg g.cfg op
   if resetsState g.cfg op pre then { cfg := cfg, good := none, blind := false } else
@@ -352,6 +358,7 @@ def G03.next (env : Env) (g : G03) (op : Op) (pre post : View) : G03 :=
     | none => { g with cfg := cfg }
     | some (n, b) =>
       if op.hitsArt n then { cfg := cfg, good := none, blind := true }
+      else if reissued op post n b then { cfg := cfg, good := none, blind := true }
       else if failedBy g.cfg op pre = some n then { cfg := cfg, good := none, blind := g.blind }
       else if (rolledBackBy g.cfg op).contains n then { cfg := cfg, good := none, blind := g.blind }
       else { cfg := cfg, good := some (n, b), blind := g.blind }
